@@ -55,6 +55,7 @@ type conn struct {
 	outFragQueue *FragQueue // queue of redis messages to be written
 
 	opened     bool             // connection opened event fired
+	closing    bool             // QUIT received, close after the queued replies are written
 	isSlave    bool             // whether redis slave node
 	initStep   int8             // number of steps required for redis connection initialization
 	initStatus InitializeStatus // redis connection initialization status
